@@ -453,6 +453,12 @@ func reservedNameMembers(cfg gen.Config) []member {
 		out = append(out, member{name: "root type named by the title " + title, cfg: t, root: &fam.Spec{Kind: "object", Title: true, ConcreteTitle: title,
 			Props: []*fam.Prop{{Label: "s", Spec: str("minLength"), Required: true}, {Label: "n", Spec: &fam.Spec{Kind: "integer", Kw: []string{"maximum"}}}}}})
 	}
+	// a DEFINITION whose type is named Plain / Value next to another type that collects additional properties
+	for _, dn := range []string{"plain", "value", "raw"} {
+		d := &fam.Spec{Kind: "object", Ref: "$defs", ConcreteDef: dn, Props: []*fam.Prop{{Label: "t", Spec: str("minLength"), Required: true}}}
+		out = append(out, member{name: "definition named " + dn + " next to a type with additionalProperties", cfg: cfg, root: &fam.Spec{Kind: "object", AddProps: "string",
+			Props: []*fam.Prop{{Label: "d", Spec: d, Required: true}, {Label: "n", Spec: &fam.Spec{Kind: "integer", Kw: []string{"minimum"}}}}}})
+	}
 	for _, name := range []string{"additional_properties", "additionalProperties", "plain", "raw", "value"} {
 		out = append(out, member{name: "property named " + name, cfg: cfg, root: &fam.Spec{Kind: "object",
 			Props: []*fam.Prop{{Label: "r", Concrete: name, Spec: str("maxLength")}, {Label: "s", Spec: str("minLength"), Required: true}}}})
